@@ -126,7 +126,7 @@ TABLE['C04'] = dict(
     ])
 
 TABLE['C05'] = dict(
-    imports=[A + 'DemographyMixed', A + 'DemographyThm', A + 'EndToEnd2'],
+    imports=[A + 'DemographyMixed', A + 'DemographyThm', A + 'EndToEnd2', A + 'DemoObjThm'],
     summary='Proved on the code model of Demography.epochs: tiling of [0,inf), change times are boundaries, value in force for any '
             'number of discrete events (latest change wins, stable order on ties), lookup of get_epochs is pointwise, order '
             'independence (no conflicts), discretised endpoint mean, split orientation lemmas, and kernel-checked counterexamples '
@@ -157,6 +157,13 @@ TABLE['C05'] = dict(
         ('grid_point_skipped', 'PG.grid_point_skipped', 'a grid point closer than 1e-10 to a boundary is skipped (documented limitation)'),
         ('glue_link', 'PG.EndToEnd.epoch_tables_from_demography', 'for every epoch the generator produces from the translated user dictionaries and every time inside it, the table the transitions use equals the table read off the epoch'),
         ('schedule_from_input', 'PG.EndToEnd.demography_schedule', 'the generated epochs tile [0, inf) with boundaries exactly at the positive change times of the input'),
+        ('object_invariant', 'PG.DemoObj.inv_reachable', 'the mutable Demography object: after ANY history of constructor / add_events / add_event / epochs / reads / Coalescent(...) the cached pop_names, n_pops are those of the events held and the events are sorted'),
+        ('object_events_stable_sort', 'PG.DemoObj.events_eq_stable_sort', 'the events held are the stable sort by start time of everything handed over, whichever route it came'),
+        ('object_pop_names', 'PG.DemoObj.popNames_eq_sortDedup_mentioned', 'pop_names is the sorted set of every population mentioned so far (events of any route, sampled populations of a Coalescent)'),
+        ('object_order_independent', 'PG.DemoObj.popNames_order_independent', 'two histories handing over permutations of the same events agree on pop_names, n_pops, on the events up to ties and on the relative order of events with different start times'),
+        ('object_coalescent_init', 'PG.DemoObj.coalescentInit_complete', 'Coalescent(n, demography) on an up-to-date object: names complete, lineage dict = sample + zeros, the added PopSizeChanges mentions exactly the sampled names no event mentions, earlier events untouched'),
+        ('object_coalescent_init_reachable', 'PG.DemoObj.coalescentInit_on_fresh', 'in every history every Coalescent(...) meets an up-to-date object'),
+        ('object_stale_add_event', 'PG.DemoObj.staleadd_counterexample', 'add_event without _prepare_events (a seeded change): pop_names misses a specified population and Coalescent overrides its size'),
     ])
 
 TABLE['C06'] = dict(
